@@ -33,12 +33,14 @@ class IkeSaController:
     def _get_ike_sa_by_spi(self, spi):
         return next(x for x in self.ike_sas if x.my_spi == spi)
 
-    def _get_ike_sa_by_peer_addr(self, peer_addr):
+    def _get_ike_sa_by_peer_addr(self, peer_addr, my_addr=None):
         # only an IKE_SA that can negotiate (now, or once its outstanding exchange is over) is given new work: neither a
         # half-open responder IKE_SA (its initiator may never come back) nor one that has been replaced or is being deleted
         closing = (IkeSa.State.DEL_IKE_SA_REQ_SENT, IkeSa.State.DEL_AFTER_REKEY_IKE_SA_REQ_SENT,
                    IkeSa.State.REKEYED, IkeSa.State.DELETED)
+        # (connections are configured per pair of addresses: an IKE_SA of another local address belongs to another one)
         usable = [x for x in self.ike_sas if x.peer_addr == peer_addr and x.state not in closing
+                  and (my_addr is None or x.my_addr == my_addr)
                   and (x.is_initiator or x.state >= IkeSa.State.ESTABLISHED)]
         usable.sort(key=lambda x: x.state != IkeSa.State.ESTABLISHED)
         return next(iter(usable))
@@ -103,7 +105,7 @@ class IkeSaController:
 
         # look for an active IKE_SA with the peer
         try:
-            ike_sa = self._get_ike_sa_by_peer_addr(peer_addr)
+            ike_sa = self._get_ike_sa_by_peer_addr(peer_addr, my_addr)
         except StopIteration:
             my_addr = xfrm_acquire.saddr.to_ipaddr(family)
             ike_conf = self.configuration.get_ike_configuration(my_addr, peer_addr)
